@@ -2,7 +2,8 @@
    Property theorems only (proofs in proofs/PipeSyncP.v). The model (model/PipeSync.v) is the
    transition system of one pipe and one source partition; `run af tags s sched` executes an
    arbitrary schedule of writer / notifier / flusher / worker / timer / delete / restart steps.
-   af = "the worker applies the pipe's filter" (false = the code as it stands). *)
+   af = "the worker applies the pipe's filter" (true = the code as it stands, since the fix of siterator.Get;
+   false = the code before it). *)
 From LR Require Import lib.Base model.PipeSync proofs.PipeSyncP.
 
 (* The property at full strength: whenever the pipe is alive and nothing is in flight, the destination
@@ -13,11 +14,11 @@ Definition C10_exact_statement (af : bool) : Prop :=
     let s := run af tags (init pre c0) sched in
     alive s = true -> quiescent s = true -> dst s = expected tags (length pre) (log s).
 
-(* the model is faithful to the code: the filter is not applied *)
-Example C10_code_is_af_false : code_applies_filter = false.
+(* the model is faithful to the code: the filter is applied (K runs the model with this flag) *)
+Example C10_code_is_af_true : code_applies_filter = true.
 Proof. reflexivity. Qed.
 
-(* Refutation 1 (the code as it stands): an event that F rejects is copied. *)
+(* Refutation 1 (the code before the fix, af = false): an event that F rejects is copied. *)
 Theorem C10_exact_filter_refuted : ~ C10_exact_statement false.
 Proof.
   intros H.
@@ -90,6 +91,14 @@ Theorem C10_exact_partial : forall af tags pre c0 sched,
   alive s = true -> quiescent s = true -> dst s = expected tags (length pre) (log s).
 Proof. exact exact_partial. Qed.
 Print Assumptions C10_exact_partial.
+
+(* ... in particular for the code as it is (the filter is applied): no hypothesis on what is written *)
+Theorem C10_exact_code_partial : forall tags pre sched,
+  Forall enq_in_order sched ->
+  let s := run code_applies_filter tags (init pre (length pre)) sched in
+  alive s = true -> quiescent s = true -> dst s = expected tags (length pre) (log s).
+Proof. intros tags pre sched Ho. exact (exact_partial code_applies_filter tags pre _ sched eq_refl (or_introl eq_refl) Ho). Qed.
+Print Assumptions C10_exact_code_partial.
 
 (* Many sources: in every product schedule (the steps of all sources interleaved arbitrarily), every source that is
    alive and quiescent holds exactly its own expected copy, provided its own steps satisfy the hypotheses above *)
